@@ -250,19 +250,28 @@ def r_const(sid, L, N, S):
 
 
 def _pick_witness(sid, k, L, body_fn, regions):
+    """a concrete witness outside every known-finding region.  Preference goes to one on which the body currently holds; if the
+    body fails on every candidate outside the regions the first such candidate is still returned, so that the pre-flight reports
+    it as a concrete violation (an obligation must never disappear because the code under test is broken)."""
     import itertools
 
     Nc = tuple(range(k))
+    fallback = None
     for Sc in itertools.product(list(Nc) + [7], repeat=L):
         N, S = nm(*Nc), nm(*Sc)
         try:
             if any(r(sid, L, N, S) for r in regions):
                 continue
+        except Exception:
+            continue
+        if fallback is None:
+            fallback = Nc + tuple(Sc)
+        try:
             if body_fn(sid, L, N, S):
                 return Nc + tuple(Sc)
         except Exception:
             continue
-    return None
+    return fallback
 
 
 def reannotate(sid, L, N, S):
